@@ -35,6 +35,7 @@ type mpCfg struct {
 	Limits    bool
 	BlockSize int
 	NTx       int
+	Foreign   bool // also blocks proposed elsewhere (outside the property's quantifier: off)
 }
 
 func mpAlphabet(cfg mpCfg) []string {
@@ -42,7 +43,10 @@ func mpAlphabet(cfg mpCfg) []string {
 	for k := 0; k < cfg.NTx; k++ {
 		a = append(a, fmt.Sprintf("R:%d", k))
 	}
-	a = append(a, "C:0", "C:1", "C:2", "C:ALL", fmt.Sprintf("CF:%d", cfg.NTx-1), "F", "O")
+	a = append(a, "C:0", "C:1", "C:2", "C:ALL", "F", "O")
+	if cfg.Foreign {
+		a = append(a, fmt.Sprintf("CF:%d", cfg.NTx-1))
+	}
 	return a
 }
 
@@ -56,7 +60,6 @@ type mpExec struct {
 	held      []string        // model: accepted, not committed, not flushed, in acceptance order
 	committed map[string]bool // model
 	resub     map[string]bool
-	flushed   bool
 }
 
 func mpTx(k int) []byte { return []byte(fmt.Sprintf("c19-opaque-tx-%d", k)) }
@@ -122,11 +125,7 @@ func (x *mpExec) reap(n int) ([]string, [][]byte, bool) {
 			continue
 		}
 		if !x.isHeld(nm) {
-			kind, shape := "offers-unknown-tx", ""
-			if x.flushed {
-				kind, shape = "flush-incomplete", "reap"
-			}
-			x.find("Mempool.Reap", kind, shape, nm+" is offered but is not an accepted, uncommitted, unflushed tx")
+			x.find("Mempool.Reap", "offers-unknown-tx", "", nm+" is offered but is not an accepted, uncommitted, unflushed tx")
 			continue
 		}
 		p := 0
@@ -160,9 +159,6 @@ func (x *mpExec) sizeCheck() int {
 			x.find("Mempool.ReceiveTx", "size-exceeds-bound", "", fmt.Sprintf("Size()=%d > configured limit block_size*2 = %d (mempool_enable_txs_limits=true)", sz, lim))
 		}
 	}
-	if x.flushed && sz != 0 {
-		x.find("Mempool.Flush", "flush-incomplete", "size", fmt.Sprintf("Size()=%d right after Flush", sz))
-	}
 	return sz
 }
 
@@ -189,7 +185,6 @@ func (x *mpExec) update(names []string, raws [][]byte) {
 		return
 	}
 	x.res.Blocks++
-	x.flushed = false
 	for _, nm := range names {
 		x.committed[nm] = true
 		x.resub[nm] = false
@@ -213,8 +208,7 @@ func (x *mpExec) apply(letter string) string {
 		if !x.guard("ReceiveTx", func() { err = x.mp.ReceiveTx(gtypes.Tx(raw)) }) {
 			return "dead"
 		}
-		x.flushed = false
-		if x.isHeld(nm) {
+			if x.isHeld(nm) {
 			if err == nil {
 				x.find("Mempool.ReceiveTx", "exact-duplicate-accepted", "opaque", "ReceiveTx("+nm+") returned nil although the pool holds exactly this tx")
 			}
@@ -251,7 +245,15 @@ func (x *mpExec) apply(letter string) string {
 			return "dead"
 		}
 		x.held = nil
-		x.flushed = true
+		// "Remove all transactions from mempool and cache": checked at once
+		var sz int
+		var left []gtypes.Tx
+		if !x.guard("Size", func() { sz = x.mp.Size(); left = x.mp.Reap(-1) }) {
+			return "dead"
+		}
+		if sz != 0 || len(left) != 0 {
+			x.find("Mempool.Flush", "flush-incomplete", "", fmt.Sprintf("right after Flush: Size()=%d, Reap(-1) offers %d txs", sz, len(left)))
+		}
 		return "flushed"
 	case "O":
 		return "obs"
@@ -279,7 +281,22 @@ func (x *mpExec) canon() string {
 		ck = append(ck, mpName([]byte(k)))
 	}
 	sort.Strings(ck)
-	return fmt.Sprintf("L%v C%v", names, ck)
+	// the oracle's own memory is part of the state: two histories may be merged
+	// only if the model would also judge their futures alike
+	var cm, rs []string
+	for k, v := range x.committed {
+		if v {
+			cm = append(cm, k)
+		}
+	}
+	for k, v := range x.resub {
+		if v {
+			rs = append(rs, k)
+		}
+	}
+	sort.Strings(cm)
+	sort.Strings(rs)
+	return fmt.Sprintf("L%v C%v | model held%v committed%v resub%v", names, ck, x.held, cm, rs)
 }
 
 func runMp(cfg mpCfg, hist []string, mode string) *execResult {
